@@ -1079,18 +1079,110 @@ Proof.
   apply N.leb_le in B2, B3. split; assumption.
 Qed.
 
-(* the full reading - the bytes HELD (recv_ledger: cached datagrams + the symbols held by the
-   block decoders + FDT data) bounded the same way - is false of the model *)
-Definition ledger_bounded (cfg : rconfig) (maxpkt maxblk : N) (r : recv) : Prop :=
-  recv_ledger r <= (lenN_ (rv_objects r) + lenN_ (rv_fdt_receivers r) + 10) * per_object_bound cfg maxpkt maxblk.
-Definition memory_bounded_full : Prop :=
-  forall E parse_fdt cfg evs maxpkt maxblk,
-    C17_inputs_bounded parse_fdt evs maxpkt maxblk ->
-    ledger_bounded cfg maxpkt maxblk (snd (fst (recv_run E parse_fdt cfg recv0 evs ctx0))).
+(* D47.  Before the repair of D47 the full reading - the bytes HELD (recv_ledger: cached datagrams + the symbols held
+   by the block decoders + FDT data) bounded the same way - was FALSE of the model: a block decoder kept every symbol
+   as received, whatever its length (63 datagrams of 1424 bytes for E = 1: 88200 bytes held, 64 accounted).
+   BlockDecoder::push now discards a symbol longer than the encoding symbol length E.  What is true now, for the
+   objects in flight (rv_objects), under C17_inputs_bounded and the hypothesis fec_out_ok on the decoder ORACLE of
+   the model (a decoder returns at most k * E bytes): *)
+Definition blocks_held (o : objrecv) : N := sumN' (map shard_bytes (r_blocks o)).
+Lemma obj_ledger_split o : obj_ledger o = cache_bytes o + blocks_held o.
+Proof. reflexivity. Qed.
+Definition obj_held_mult (o : objrecv) : N :=
+  match r_oti o with Some oti => held_mult (ro_fec oti) | None => 0 end.
+(* the largest of the per-scheme multiples (RaptorQ: one symbol per 24-bit ESI, and the decoded block) *)
+Definition held_mult_max : N := 16777217.
+Lemma held_mult_le f : held_mult f <= held_mult_max.
+Proof. destruct f; cbn; unfold held_mult_max; lia. Qed.
+Definition per_object_held_bound (cfg : rconfig) (maxpkt maxblk : N) : N :=
+  cf_max_cache cfg + maxpkt + 4097 * (held_mult_max * maxblk).
 
-(* a No-Code object announced with E = 1, B = 64, transfer length 64 (one block of 64 bytes, within
-   maxblk = 64) whose 63 first symbols arrive in datagrams of 1424 bytes carrying 1400-byte
-   "symbols": the block decoder keeps every payload as it is; the receiver accounts 64 bytes *)
+Lemma sum_le_const {A} (f : A -> N) c l : (forall x, In x l -> f x <= c) -> sumN' (map f l) <= lenN_ l * c.
+Proof.
+  unfold sumN', lenN_. induction l as [|x l IH]; intros H; cbn [map fold_right length]; [lia|].
+  rewrite Nat2N.inj_succ. pose proof (H x (or_introl eq_refl)). specialize (IH (fun y Hy => H y (or_intror Hy))). lia.
+Qed.
+
+(* (1) per block decoder: ACCOUNTED (bd_size, what r_alloc_size sums) <= NOMINAL block size k * E <= maxblk, and
+   HELD <= (max_syms + k) * E: at most max_syms stored symbols of at most E bytes - No-Code k, Reed-Solomon k + parity
+   (<= 256), RaptorQ / Raptor one per ESI of the payload id (2^24 / 2^16: every new ESI is kept until the decoder
+   answers) - and a decoded block of at most k * E bytes; a deallocated decoder holds nothing; an object has at
+   most 4097 block decoders; an object that is Receiving accounts exactly the bd_size of its blocks *)
+Theorem held_bytes_bounded_by_accounted E parse_fdt cfg evs maxpkt maxblk :
+  C17_inputs_bounded parse_fdt evs maxpkt maxblk -> fec_out_ok E ->
+  let '(_, r, _) := recv_run E parse_fdt cfg recv0 evs ctx0 in
+  forall q, In q (rv_objects r) ->
+    let o := snd q in
+    (r_state o = Receiving -> r_alloc_size o = sumN' (map bd_size (r_blocks o)))
+    /\ match r_oti o with
+       | None => r_blocks o = []
+       | Some oti =>
+         (length (r_blocks o) <= 4097)%nat
+         /\ forall b, In b (r_blocks o) ->
+              bd_size b <= bd_k b * ro_e oti /\ bd_k b * ro_e oti <= maxblk
+              /\ shard_bytes b <= (max_syms oti (bd_k b) + bd_k b) * ro_e oti
+              /\ (bd_alloc b = false -> shard_bytes b = 0)
+              /\ shard_bytes b <= held_mult (ro_fec oti) * maxblk
+       end.
+Proof.
+  intros Hb Hfec. pose proof (C17_held_proved E parse_fdt cfg evs maxpkt maxblk Hb Hfec) as H.
+  pose proof (C17_acct_proved E parse_fdt cfg evs maxpkt maxblk Hb) as A.
+  destruct (recv_run E parse_fdt cfg recv0 evs ctx0) as [[xs r] c].
+  intros q Hq. rewrite Forall_forall in H, A. specialize (H q Hq). specialize (A q Hq). cbv zeta.
+  split; [exact A|]. unfold HB in H. destruct (r_oti (snd q)) as [oti|]; [|exact H].
+  destruct H as [F L]. split; [exact L|]. intros b Hin. rewrite Forall_forall in F. specialize (F b Hin).
+  destruct (held_b_bytes maxblk oti b F) as [B1 B2].
+  split; [exact (hb_size _ _ _ F)|]. split; [exact (hb_nom _ _ _ F)|]. split; [exact B1|]. split; [exact B2|].
+  exact (held_b_cfg maxblk oti b F).
+Qed.
+
+(* (2) per object: the block decoders hold at most 4097 * (multiple of the scheme) * maxblk bytes *)
+Theorem blocks_held_bounded E parse_fdt cfg evs maxpkt maxblk :
+  C17_inputs_bounded parse_fdt evs maxpkt maxblk -> fec_out_ok E ->
+  let '(_, r, _) := recv_run E parse_fdt cfg recv0 evs ctx0 in
+  forall q, In q (rv_objects r) -> blocks_held (snd q) <= 4097 * (obj_held_mult (snd q) * maxblk).
+Proof.
+  intros Hb Hfec. pose proof (held_bytes_bounded_by_accounted E parse_fdt cfg evs maxpkt maxblk Hb Hfec) as H.
+  destruct (recv_run E parse_fdt cfg recv0 evs ctx0) as [[xs r] c].
+  intros q Hq. specialize (H q Hq). cbv zeta in H. destruct H as [_ H]. unfold blocks_held, obj_held_mult.
+  destruct (r_oti (snd q)) as [oti|]; [|rewrite H; cbn; lia].
+  destruct H as [L F].
+  pose proof (sum_le_const shard_bytes (held_mult (ro_fec oti) * maxblk) (r_blocks (snd q))
+                (fun b Hin => proj2 (proj2 (proj2 (proj2 (F b Hin)))))) as S.
+  unfold lenN_ in S. nia.
+Qed.
+
+(* (3) G3, memory bounded by configuration, THE OBJECT PART: the bytes HELD for the objects in flight (cached
+   datagrams + what their block decoders hold) are at most (objects in flight) * (cache + maxpkt + 4097 * 16777217 *
+   maxblk) - a constant of the configuration and of the bounds on the inputs.  The number of objects in flight is
+   not bounded by configuration (it follows the traffic and is released by the time-outs), nor is the FDT part of
+   recv_ledger (FDT receivers follow the traffic too and have their own limit of 1 MiB each) *)
+Theorem memory_bounded_by_configuration E parse_fdt cfg evs maxpkt maxblk :
+  C17_inputs_bounded parse_fdt evs maxpkt maxblk -> fec_out_ok E ->
+  let '(_, r, _) := recv_run E parse_fdt cfg recv0 evs ctx0 in
+  sumN' (map (fun q => obj_ledger (snd q)) (rv_objects r)) <= lenN_ (rv_objects r) * per_object_held_bound cfg maxpkt maxblk
+  /\ lenN_ (rv_error r) <= cf_max_err cfg
+  /\ lenN_ (rv_fdt_current r) <= 10.
+Proof.
+  intros Hb Hfec. pose proof (C17_bounds_proved E parse_fdt cfg evs maxpkt maxblk Hb) as B.
+  pose proof (reachable_invariants E parse_fdt cfg evs) as R.
+  pose proof (blocks_held_bounded E parse_fdt cfg evs maxpkt maxblk Hb Hfec) as H.
+  destruct (recv_run E parse_fdt cfg recv0 evs ctx0) as [[xs r] c]. destruct R as [R _].
+  unfold P_C17_bounds in B. apply andb_prop in B. destruct B as [B B3]. apply andb_prop in B. destruct B as [B1 B2].
+  apply N.leb_le in B2, B3. split; [|split; assumption].
+  apply sum_le_const. intros q Hq. rewrite obj_ledger_split.
+  rewrite forallb_forall in B1. specialize (B1 q Hq). unfold P_C17_object in B1. apply andb_prop in B1.
+  destruct B1 as [C1 _]. apply N.leb_le in C1.
+  rewrite Forall_forall in R. specialize (R q Hq). unfold max_is_cfg in R. rewrite R in C1.
+  specialize (H q Hq).
+  assert (M : obj_held_mult (snd q) <= held_mult_max).
+  { unfold obj_held_mult. destruct (r_oti (snd q)); [apply held_mult_le|unfold held_mult_max; lia]. }
+  unfold per_object_held_bound. nia.
+Qed.
+
+(* the scenario that refuted the full reading before D47 - a No-Code object announced with E = 1, B = 64, transfer
+   length 64 (one block of 64 bytes, within maxblk = 64) whose 63 first symbols arrive in datagrams of 1424 bytes
+   carrying 1400-byte "symbols": every one of them is now discarded *)
 Definition c17_long_symbol_pkt (i : nat) : apkt :=
   mk_apkt 5 false false None
           (match i with O => Some (mk_roti FNoCode 1 64 0 None, 64) | _ => None end)
@@ -1101,28 +1193,41 @@ Definition c17_long_symbol_final : recv :=
 
 Lemma c17_long_symbol_inputs_bounded : C17_inputs_bounded c17_ex_nofdt c17_long_symbol_evs 1500 64.
 Proof. exists 0. split; [vm_compute; reflexivity|intros d i H; discriminate H]. Qed.
+Lemma c17_ex_env_fec_out_ok : fec_out_ok c17_ex_env.
+Proof. intros toi f sbn k e size sh d H. discriminate H. Qed.
 
-Lemma c17_long_symbol_facts :
-  P_C17_bounds (c17_ex_cfg 64) 1500 64 c17_long_symbol_final = true
-  /\ recv_accounted c17_long_symbol_final = 64
-  /\ recv_ledger c17_long_symbol_final = 88200
-  /\ (lenN_ (rv_objects c17_long_symbol_final) + lenN_ (rv_fdt_receivers c17_long_symbol_final) + 10)
-     * per_object_bound (c17_ex_cfg 64) 1500 64 = 19316.
-Proof. vm_compute. repeat split. Qed.
-
-Lemma c17_long_symbol_core :
-  ((lenN_ (rv_objects (snd (fst (recv_run c17_ex_env c17_ex_nofdt (c17_ex_cfg 64) recv0 c17_long_symbol_evs ctx0))))
-    + lenN_ (rv_fdt_receivers (snd (fst (recv_run c17_ex_env c17_ex_nofdt (c17_ex_cfg 64) recv0 c17_long_symbol_evs ctx0)))) + 10)
+(* what is still NOT bounded by the configuration of the receiver: the full ledger, by its FDT part.  The packets of
+   the FDT (TOI 0) are not constrained by C17_inputs_bounded, and an FDT receiver obeys its own limit (1 MiB), not
+   cf_max_cache: one half-received FDT instance announced with E = 1400, 20 symbols, of which 15 have arrived *)
+Definition ledger_bounded (cfg : rconfig) (maxpkt maxblk : N) (r : recv) : Prop :=
+  recv_ledger r <= (lenN_ (rv_objects r) + lenN_ (rv_fdt_receivers r) + 10) * per_object_bound cfg maxpkt maxblk.
+Definition memory_bounded_full : Prop :=
+  forall E parse_fdt cfg evs maxpkt maxblk,
+    C17_inputs_bounded parse_fdt evs maxpkt maxblk -> fec_out_ok E ->
+    ledger_bounded cfg maxpkt maxblk (snd (fst (recv_run E parse_fdt cfg recv0 evs ctx0))).
+Definition c17_big_fdt_pkt (i : nat) : apkt :=
+  mk_apkt 0 false false (Some 1) (Some (mk_roti FNoCode 1400 64 0 None, 28000)) None None 0
+          [0; 0; 0; N.of_nat i] (repeat 7 1400) 1424.
+Definition c17_big_fdt_evs : list rev := map (fun i => RvPush (c17_big_fdt_pkt i) 0%Z) (seq 0 15).
+Lemma c17_big_fdt_inputs_bounded : C17_inputs_bounded c17_ex_nofdt c17_big_fdt_evs 1500 64.
+Proof. exists 0. split; [vm_compute; reflexivity|intros d i H; discriminate H]. Qed.
+Lemma c17_big_fdt_core :
+  ((lenN_ (rv_objects (snd (fst (recv_run c17_ex_env c17_ex_nofdt (c17_ex_cfg 64) recv0 c17_big_fdt_evs ctx0))))
+    + lenN_ (rv_fdt_receivers (snd (fst (recv_run c17_ex_env c17_ex_nofdt (c17_ex_cfg 64) recv0 c17_big_fdt_evs ctx0)))) + 10)
    * per_object_bound (c17_ex_cfg 64) 1500 64
-   <? recv_ledger (snd (fst (recv_run c17_ex_env c17_ex_nofdt (c17_ex_cfg 64) recv0 c17_long_symbol_evs ctx0)))) = true.
+   <? recv_ledger (snd (fst (recv_run c17_ex_env c17_ex_nofdt (c17_ex_cfg 64) recv0 c17_big_fdt_evs ctx0)))) = true.
 Proof. vm_compute. reflexivity. Qed.
-
 Theorem memory_bounded_full_refuted : ~ memory_bounded_full.
 Proof.
   intros H.
-  pose proof (H c17_ex_env c17_ex_nofdt (c17_ex_cfg 64) c17_long_symbol_evs 1500 64 c17_long_symbol_inputs_bounded) as K.
-  unfold ledger_bounded in K. pose proof c17_long_symbol_core as L. apply N.ltb_lt in L. lia.
+  pose proof (H c17_ex_env c17_ex_nofdt (c17_ex_cfg 64) c17_big_fdt_evs 1500 64 c17_big_fdt_inputs_bounded c17_ex_env_fec_out_ok) as K.
+  unfold ledger_bounded in K. pose proof c17_big_fdt_core as L. apply N.ltb_lt in L. lia.
 Qed.
+
+(* the number of FDT receivers follows the traffic: n half-received instances with distinct ids *)
+Definition c17_many_fdt (n : nat) : list rev :=
+  map (fun i => RvPush (mk_apkt 0 false false (Some (N.of_nat (S i))) (Some (mk_roti FNoCode 4 64 0 None, 8)) None None 0
+                                [0;0;0;0] [60;70;80;90] 36) 0%Z) (seq 0 n).
 
 (* the number of objects in flight is bounded by traffic only: n distinct TOIs, n objects *)
 Definition c17_many_tois (n : nat) : list rev :=
